@@ -480,6 +480,22 @@ func ruleComparators(c *Ctx, rule, pkg, method string) {
 				}
 			}
 		}
+		if fwd == nil && len(fn.Params) == 3 {
+			// no direction in the comparator at all: descending order is made by a wrapper that negates the answer
+			// (decided below); the comparator itself is decided for ascending order
+			compound := false
+			for i := 0; i < st.NumFields(); i++ {
+				if _, isSl := st.Field(i).Type().Underlying().(*types.Slice); isSl {
+					compound = true // the comparator that runs the list of field comparators (decided by its own rule)
+				}
+			}
+			if w := reversingWrapper(c, pkg, method); w != nil && w != recv && !compound {
+				name := FnName(fn)
+				c.Analysed(name)
+				decideComparator(c, rule, fn, nil, dirVal)
+			}
+			continue
+		}
 		if fwd == nil || len(fn.Params) != 3 {
 			continue
 		}
@@ -488,6 +504,35 @@ func ruleComparators(c *Ctx, rule, pkg, method string) {
 		decideComparator(c, rule, fn, fwd, dirVal)
 		_ = p
 	}
+}
+
+// reversingWrapper: a comparator type of pkg that answers the negation of what the comparator it wraps answers.
+func reversingWrapper(c *Ctx, pkg, method string) *types.Named {
+	for _, fn := range c.prodFuncs(pkg) {
+		if fn.Parent() != nil || fn.Signature.Recv() == nil || fn.Name() != method || len(fn.Params) != 3 || len(fn.Blocks) != 1 {
+			continue
+		}
+		rets := returnsOf(fn)
+		if len(rets) != 1 || len(rets[0].Results) != 1 {
+			continue
+		}
+		neg, isNeg := rets[0].Results[0].(*ssa.UnOp)
+		if !isNeg || neg.Op != token.SUB {
+			continue
+		}
+		inner, isCall := neg.X.(*ssa.Call)
+		if !isCall || !inner.Call.IsInvoke() || inner.Call.Method.Name() != method || len(inner.Call.Args) != 2 {
+			continue
+		}
+		if inner.Call.Args[0] != ssa.Value(fn.Params[1]) || inner.Call.Args[1] != ssa.Value(fn.Params[2]) {
+			continue
+		}
+		if f, base := loadedField(inner.Call.Value); f == nil || base != ssa.Value(fn.Params[0]) {
+			continue
+		}
+		return namedOf(fn.Signature.Recv().Type())
+	}
+	return nil
 }
 
 // comparatorDirections: the fields of comparator structs that newRowComparator fills from IsAscending() through a
@@ -623,7 +668,11 @@ func decideComparator(c *Ctx, rule string, fn *ssa.Function, fwd *types.Var, dir
 		forward    bool
 	}
 	var cases []tcase
-	for _, f := range []bool{true, false} {
+	directions := []bool{true, false}
+	if fwd == nil {
+		directions = []bool{true} // the comparator only knows ascending order (a wrapper reverses it)
+	}
+	for _, f := range directions {
 		cases = append(cases, tcase{nil1: true, nil2: true, forward: f}, tcase{nil1: true, forward: f}, tcase{nil2: true, forward: f})
 		if isBool {
 			for _, b1 := range []bool{false, true} {
